@@ -807,4 +807,407 @@ theorem parts_lineText (n : Str) (p : Params) (v : Str) (hn : validToken n = tru
 
 end joinsplit
 
+/-! ## the placeholder pass on parameter text with arbitrary values
+
+  For parameter values that hold backslashes or `%XX` the pass does change the serialised text,
+  but only inside the values: it never adds or removes a double quote, never adds a delimiter,
+  and every value holding a backslash sits inside double quotes. -/
+section escaped
+
+theorem mem_rep2 (a b : Char) (r : Str) (c : Char) : ∀ (s : Str), c ∈ rep2 a b r s → c ∈ r ∨ c ∈ s := by
+  intro s
+  induction s using rep2.induct a b with
+  | case1 => intro h; exact Or.inr h
+  | case2 e => intro h; exact Or.inr h
+  | case3 e d cs hm ih =>
+    intro h
+    simp only [rep2, hm, and_self, if_true, List.mem_append] at h
+    rcases h with h | h
+    · exact Or.inl h
+    · rcases ih h with h' | h'
+      · exact Or.inl h'
+      · exact Or.inr (List.mem_cons_of_mem _ (List.mem_cons_of_mem _ h'))
+  | case4 e d cs hm ih =>
+    intro h
+    simp only [rep2, hm, if_false, List.mem_cons] at h
+    rcases h with h | h
+    · exact Or.inr (by simp [h])
+    · rcases ih h with h' | h'
+      · exact Or.inl h'
+      · exact Or.inr (List.mem_cons_of_mem _ h')
+
+/-- the characters of the placeholder codes -/
+def codeChars : Str := ['%', '2', 'C', '3', 'A', 'B', '5']
+
+theorem mem_escapeString (c : Char) (s : Str) (h : c ∈ escapeString s) : c ∈ codeChars ∨ c ∈ s := by
+  rw [escapeString_eq] at h
+  rcases mem_rep2 _ _ _ c _ h with h | h
+  · left; revert h; simp [codeChars]; grind
+  rcases mem_rep2 _ _ _ c _ h with h | h
+  · left; revert h; simp [codeChars]; grind
+  rcases mem_rep2 _ _ _ c _ h with h | h
+  · left; revert h; simp [codeChars]; grind
+  rcases mem_rep2 _ _ _ c _ h with h | h
+  · left; revert h; simp [codeChars]; grind
+  · exact Or.inr h
+
+theorem escapeString_valueOk (x : Str) (h : ValueOk x) : ValueOk (escapeString x) := by
+  refine ⟨?_, ?_⟩
+  · intro hm
+    rcases mem_escapeString DQ x hm with e | e
+    · revert e; decide
+    · exact h.1 e
+  · intro c hc
+    rcases mem_escapeString c x hc with e | e
+    · have hcc : ∀ d ∈ codeChars, inClass Gen.qunsafeChar d = false := by decide
+      exact hcc c e
+    · exact h.2 c e
+
+/-- the pass keeps "no `sep` outside double quotes" -/
+theorem scanQ_rep2 (sep b : Char) (r : Str) (hsep : sep ≠ BS) (hb : b ≠ DQ) (hr1 : DQ ∉ r) (hr2 : sep ∉ r) :
+    ∀ (s : Str) (q q' : Bool), scanQ sep q s = some q' → scanQ sep q (rep2 BS b r s) = some q' := by
+  intro s
+  induction s using rep2.induct BS b with
+  | case1 => intro q q' h; exact h
+  | case2 e => intro q q' h; exact h
+  | case3 e d cs hm ih =>
+    intro q q' h
+    obtain ⟨rfl, rfl⟩ := hm
+    have n1 : nextQ q BS = q := by simp [nextQ, BS, DQ]
+    have n2 : nextQ q d = q := by simp [nextQ, hb]
+    have e1 : (BS == sep) = false := by simpa using Ne.symm hsep
+    simp only [scanQ, n1, n2, e1, Bool.and_false, Bool.false_eq_true, if_false] at h
+    simp only [rep2, and_self, if_true]
+    rw [scanQ_append, scanQ_plain sep r q hr1 hr2]
+    split at h
+    · cases h
+    · exact ih q q' h
+  | case4 e d cs hm ih =>
+    intro q q' h
+    simp only [rep2, hm, if_false]
+    simp only [scanQ] at h ⊢
+    split
+    · next hc => simp [hc] at h
+    · next hc => simp only [hc] at h; exact ih _ q' h
+
+theorem balanced_escapeString (sep : Char) (hs : sep = ',' ∨ sep = ';' ∨ sep = ':') (s : Str)
+    (h : Balanced sep s) : Balanced sep (escapeString s) := by
+  unfold Balanced at *
+  rw [escapeString_eq]
+  have h0 : sep ≠ BS := by rcases hs with e | e | e <;> (rw [e]; decide)
+  have hc : ∀ r : Str, r ∈ percentCodes → sep ∉ r := by
+    intro r hr
+    rcases hs with e | e | e <;> (rw [e]; revert r; decide)
+  refine scanQ_rep2 sep _ _ h0 (by decide) (by decide) (hc _ (by decide)) _ _ _ ?_
+  refine scanQ_rep2 sep _ _ h0 (by decide) (by decide) (hc _ (by decide)) _ _ _ ?_
+  refine scanQ_rep2 sep _ _ h0 (by decide) (by decide) (hc _ (by decide)) _ _ _ ?_
+  exact scanQ_rep2 sep _ _ h0 (by decide) (by decide) (hc _ (by decide)) _ _ _ h
+
+/-- a character that is in no pattern separates the text for the pass -/
+theorem rep2_append_neutral (a b : Char) (r : Str) (c : Char) (hca : c ≠ a) (hcb : c ≠ b) (t : Str) :
+    ∀ (s : Str), rep2 a b r (s ++ c :: t) = rep2 a b r s ++ c :: rep2 a b r t := by
+  intro s
+  induction s using rep2.induct a b with
+  | case1 => simp [rep2, rep2_cons_ne a b c r t hca]
+  | case2 e =>
+    have : ¬ (e = a ∧ c = b) := fun h => hcb h.2
+    simp [rep2, this, rep2_cons_ne a b c r t hca]
+  | case3 e d cs hm ih => simp only [List.cons_append, rep2, hm, and_self, if_true, ih, List.append_assoc]
+  | case4 e d cs hm ih =>
+    simp only [List.cons_append] at ih ⊢
+    simp only [rep2, hm, if_false, ih, List.cons_append]
+
+theorem escapeString_neutral (c : Char) (hc : special c = false) (s t : Str) :
+    escapeString (s ++ c :: t) = escapeString s ++ c :: escapeString t := by
+  have h1 : c ≠ BS := by rintro rfl; revert hc; decide
+  have h2 : c ≠ ',' := by rintro rfl; revert hc; decide
+  have h3 : c ≠ ':' := by rintro rfl; revert hc; decide
+  have h4 : c ≠ ';' := by rintro rfl; revert hc; decide
+  simp only [escapeString_eq]
+  rw [rep2_append_neutral _ _ _ c h1 h2, rep2_append_neutral _ _ _ c h1 h3, rep2_append_neutral _ _ _ c h1 h4,
+    rep2_append_neutral _ _ _ c h1 h1]
+
+/-- apply `f` to every string of a parameter value -/
+def mapPVal (f : Str → Str) : PVal → PVal
+  | .one x => .one (f x)
+  | .many xs => .many (xs.map f)
+
+/-- what `parts()` makes of a string: placeholder pass, then the reverse pass -/
+def viaPlaceholders (x : Str) : Str := unescapeString (escapeString x)
+
+/-- the text of one value string after the placeholder pass -/
+def escVal (x : Str) : Str := if x.any (inClass Gen.quotable) then DQ :: escapeString x ++ [DQ] else x
+
+/-- the text of a value after the placeholder pass -/
+def escPValText : PVal → Str
+  | .one x => escVal x
+  | .many xs => joinWith [','] (xs.map escVal)
+
+/-- the text of an item after the placeholder pass -/
+def escItemText (kv : Str × PVal) : Str := kv.1 ++ '=' :: escPValText kv.2
+
+theorem escapeString_joinWith (c : Char) (hc : c ≠ BS) : ∀ (l : List Str), (∀ x ∈ l, NoBSEnd x) →
+    escapeString (joinWith [c] l) = joinWith [c] (l.map escapeString) := by
+  intro l
+  induction l with
+  | nil => intro _; exact escapeString_nil
+  | cons x r ih =>
+    intro h
+    cases r with
+    | nil => simp [joinWith]
+    | cons y r' =>
+      have ih' := ih (fun z hz => h z (List.mem_cons_of_mem _ hz))
+      simp only [joinWith, List.map_cons, List.append_assoc, List.singleton_append] at ih' ⊢
+      rw [escapeString_append _ _ (h x (by simp)), escapeString_cons c hc, ih']
+
+theorem escapeString_dquote (x : Str) (hx : DQ ∉ x) : escapeString (dquote x) = escVal x := by
+  rw [dquote_of_noDQ x hx]
+  unfold escVal
+  split
+  · have : DQ :: x ++ [DQ] = DQ :: (x ++ DQ :: []) := by simp
+    rw [this, escapeString_cons DQ (by decide), escapeString_neutral DQ (by decide), escapeString_nil]
+    simp
+  · next hq => exact escapeString_id x (npp_of_noBS x (noBS_of_noQuotable x hq))
+
+theorem dquote_noBSEnd (x : Str) (hx : DQ ∉ x) : NoBSEnd (dquote x) := by
+  rw [dquote_of_noDQ x hx]
+  split
+  · have : DQ :: x ++ [DQ] = (DQ :: x) ++ [DQ] := by simp
+    rw [this]
+    exact noBSEnd_append_right _ (by simp) (by decide)
+  · next hq => exact noBSEnd_of_not_mem x (noBS_of_noQuotable x hq)
+
+theorem paramValue_noBSEnd (v : PVal) (hv : PValOk v) : NoBSEnd (paramValue v) :=
+  paramValue_ind NoBSEnd noBSEnd_nil (fun _ _ => noBSEnd_append) (by decide) v
+    (fun x hx => dquote_noBSEnd x (pvalOk_strs v hv x hx).1)
+
+theorem escapeString_paramValue (v : PVal) (hv : PValOk v) : escapeString (paramValue v) = escPValText v := by
+  cases v with
+  | one x => exact escapeString_dquote x hv.1
+  | many xs =>
+    unfold paramValue qJoin escPValText
+    rw [escapeString_joinWith ',' (by decide), List.map_map]
+    · congr 1
+      apply List.map_congr_left
+      intro x hx
+      exact escapeString_dquote x (hv.2 x hx).1
+    · intro s hs
+      obtain ⟨x, hx, rfl⟩ := List.mem_map.mp hs
+      exact dquote_noBSEnd x (hv.2 x hx).1
+
+theorem itemText_noBSEnd (kv : Str × PVal) (hk : validToken kv.1 = true) (hu : upper kv.1 = kv.1)
+    (hv : PValOk kv.2) : NoBSEnd (itemText kv) := by
+  unfold itemText
+  rw [hu]
+  exact noBSEnd_append (noBSEnd_append (noBSEnd_of_not_mem _ (token_noBS _ hk)) (by decide))
+    (paramValue_noBSEnd kv.2 hv)
+
+theorem escapeString_itemText (kv : Str × PVal) (hk : validToken kv.1 = true) (hu : upper kv.1 = kv.1)
+    (hv : PValOk kv.2) : escapeString (itemText kv) = escItemText kv := by
+  unfold itemText escItemText
+  have : upper kv.1 ++ ['='] ++ paramValue kv.2 = kv.1 ++ '=' :: paramValue kv.2 := by rw [hu]; simp
+  rw [this, escapeString_neutral '=' (by decide), escapeString_paramValue kv.2 hv,
+    escapeString_id kv.1 (npp_of_noBS _ (token_noBS _ hk))]
+
+theorem paramsToIcal_eq_items (p : Params) :
+    paramsToIcal p true = joinWith [';'] ((sortByKey p).map itemText) := rfl
+
+theorem paramsToIcal_noBSEnd (p : Params) (hd : ParamDomain p) : NoBSEnd (paramsToIcal p true) := by
+  refine paramsText_ind NoBSEnd noBSEnd_nil (fun _ _ => noBSEnd_append) (by decide) (by decide)
+    (by decide) p true ?_ ?_
+  · intro kv hkv
+    have := (hd.2 kv hkv).1
+    rw [this.2]
+    exact noBSEnd_of_not_mem _ (token_noBS _ this.1)
+  · intro kv hkv x hx
+    exact dquote_noBSEnd x (pvalOk_strs kv.2 (hd.2 kv hkv).2 x hx).1
+
+/-- the placeholder pass works item by item, and inside an item only on the quoted values -/
+theorem escapeString_paramsToIcal (p : Params) (hd : ParamDomain p) :
+    escapeString (paramsToIcal p true) = joinWith [';'] ((sortByKey p).map escItemText) := by
+  have hs := paramDomain_sort p hd
+  rw [paramsToIcal_eq_items, escapeString_joinWith ';' (by decide), List.map_map]
+  · congr 1
+    apply List.map_congr_left
+    intro kv hkv
+    exact escapeString_itemText kv (hs.2 kv hkv).1.1 (hs.2 kv hkv).1.2 (hs.2 kv hkv).2
+  · intro s hs'
+    obtain ⟨kv, hkv, rfl⟩ := List.mem_map.mp hs'
+    exact itemText_noBSEnd kv (hs.2 kv hkv).1.1 (hs.2 kv hkv).1.2 (hs.2 kv hkv).2
+
+
+theorem escVal_balanced (sep : Char) (hs : sep = ',' ∨ sep = ';' ∨ sep = ':') (x : Str) (hx : DQ ∉ x) :
+    Balanced sep (escVal x) := by
+  rw [← escapeString_dquote x hx]
+  refine balanced_escapeString sep hs _ (dquote_balanced_any sep ?_ ?_ x)
+  · rcases hs with e | e | e <;> (rw [e]; decide)
+  · rcases hs with e | e | e <;> (rw [e]; decide)
+
+theorem escVal_eq_nil (x : Str) (h : escVal x = []) : x = [] := by
+  unfold escVal at h
+  split at h
+  · simp at h
+  · exact h
+
+theorem escapeString_noQuotable (x : Str) (hq : ¬ x.any (inClass Gen.quotable) = true) : escapeString x = x :=
+  escapeString_id x (npp_of_noBS x (noBS_of_noQuotable x hq))
+
+theorem parse_escVal (x : Str) (hx : ValueOk x) (rest : List Str) :
+    parseParamVals false (escVal x :: rest) = (parseParamVals false rest).map (escapeString x :: ·) := by
+  by_cases hq : x.any (inClass Gen.quotable) = true
+  · have hy := escapeString_valueOk x hx
+    have ev : escVal x = DQ :: escapeString x ++ [DQ] := by simp [escVal, hq]
+    rw [ev]
+    have s : startsWithDQ (DQ :: escapeString x ++ [DQ]) = true := by simp [startsWithDQ]
+    have e : endsWithDQ (DQ :: escapeString x ++ [DQ]) = true := by
+      have : DQ :: escapeString x ++ [DQ] = (DQ :: escapeString x) ++ [DQ] := by simp
+      rw [endsWithDQ, this, List.getLast?_concat]; simp
+    have v : validParamValue (escapeString x) true = true := by
+      simp only [validParamValue, if_true, Bool.not_eq_true', List.any_eq_false]
+      intro c hc; simp [hy.2 c hc]
+    rw [parseParamVals]
+    simp only [s, e, Bool.and_self, if_true, stripDQ_quoted _ hy.1, v]
+  · have ev : escVal x = dquote x := by
+      rw [dquote_of_noDQ x hx.1]; simp [escVal, hq]
+    rw [ev, parse_dquote x hx, escapeString_noQuotable x hq]
+
+theorem parse_map_escVal : ∀ (xs : List Str), (∀ x ∈ xs, ValueOk x) →
+    parseParamVals false (xs.map escVal) = some (xs.map escapeString) := by
+  intro xs
+  induction xs with
+  | nil => intro _; simp [parseParamVals]
+  | cons x r ih =>
+    intro h
+    rw [List.map_cons, parse_escVal x (h x (by simp)), ih (fun y hy => h y (List.mem_cons_of_mem _ hy))]
+    simp
+
+theorem parse_escJoin (xs : List Str) (hd : ∀ x ∈ xs, ValueOk x) (hq : joinWith [','] (xs.map escVal) ≠ []) :
+    parseParamVals false (qSplit (joinWith [','] (xs.map escVal)) ',') = some (xs.map escapeString) := by
+  rw [qSplit_join ',' (by decide) _ hq, parse_map_escVal xs hd]
+  intro s hs
+  obtain ⟨x, hx, rfl⟩ := List.mem_map.mp hs
+  exact escVal_balanced ',' (Or.inl rfl) x (hd x hx).1
+
+theorem escJoin_eq_nil (xs : List Str) (hne : xs ≠ []) (h : joinWith [','] (xs.map escVal) = []) : xs = [[]] := by
+  rcases joinWith_eq_nil ',' _ h with e | e
+  · simp [hne] at e
+  · cases xs with
+    | nil => simp at e
+    | cons x r =>
+      cases r with
+      | nil => simp at e; rw [escVal_eq_nil x e]
+      | cons y r' => simp at e
+
+theorem canonVal_mapPVal (f : Str → Str) (v : PVal) : canonVal (mapPVal f v) = mapPVal f (canonVal v) := by
+  cases v with
+  | one x => rfl
+  | many xs =>
+    match xs with
+    | [] => rfl
+    | [x] => rfl
+    | x :: y :: r => rfl
+
+theorem unescapePVal_eq (v : PVal) : unescapePVal v = mapPVal unescapeString v := by
+  cases v <;> rfl
+
+theorem mapPVal_comp (f g : Str → Str) (v : PVal) : mapPVal f (mapPVal g v) = mapPVal (fun x => f (g x)) v := by
+  cases v <;> simp [mapPVal]
+
+theorem parseParam_escItem (kv : Str × PVal) (hk : validToken kv.1 = true) (hu : upper kv.1 = kv.1)
+    (hv : PValOk kv.2) :
+    parseParam false (escItemText kv) = some (kv.1, canonVal (mapPVal escapeString kv.2)) := by
+  obtain ⟨k, v⟩ := kv
+  simp only at hk hu hv ⊢
+  unfold parseParam escItemText
+  simp only
+  rw [qSplit_key_val k _ hk]
+  simp only [hk, Bool.not_true, Bool.false_eq_true, if_false, hu]
+  cases v with
+  | one x =>
+    have hv : ValueOk x := hv
+    simp only [escPValText, mapPVal]
+    by_cases he : escVal x = []
+    · have : x = [] := escVal_eq_nil x he
+      subst this
+      rw [he]
+      simp [qSplit, qSplitGo, parseParamVals, canonVal, escapeString_nil]
+    · have := parse_escJoin [x] (by simpa using hv) (by simpa [joinWith] using he)
+      simp only [List.map_cons, List.map_nil, joinWith] at this
+      rw [this]
+      simp [canonVal]
+  | many xs =>
+    have hv : xs ≠ [] ∧ ∀ x ∈ xs, ValueOk x := hv
+    simp only [escPValText, mapPVal]
+    by_cases he : joinWith [','] (xs.map escVal) = []
+    · have : xs = [[]] := escJoin_eq_nil xs hv.1 he
+      subst this
+      rw [he]
+      simp [qSplit, qSplitGo, parseParamVals, canonVal, escapeString_nil]
+    · rw [parse_escJoin xs hv.2 he]
+      match xs, hv.1 with
+      | [x], _ => simp [canonVal]
+      | x :: y :: r, _ => simp [canonVal]
+
+theorem escItem_balanced (kv : Str × PVal) (hk : validToken kv.1 = true) (hu : upper kv.1 = kv.1)
+    (hv : PValOk kv.2) : Balanced ';' (escItemText kv) := by
+  rw [← escapeString_itemText kv hk hu hv]
+  exact balanced_escapeString ';' (Or.inr (Or.inl rfl)) _ (item_balanced kv hk hu)
+
+theorem escItem_ne_nil (kv : Str × PVal) : escItemText kv ≠ [] := by
+  unfold escItemText; simp
+
+/-- `fold_items` for any item text `T` that parses to key and `G value` -/
+theorem fold_items' (F : Option Params → Str → Option Params)
+    (hF : ∀ ps param k v, parseParam false param = some (k, v) → F (some ps) param = some (Params.put ps k v))
+    (T : Str × PVal → Str) (G : PVal → PVal) :
+    ∀ (s : Params) (acc : Params), (s.map Prod.fst).Nodup →
+    (∀ kv ∈ s, parseParam false (T kv) = some (kv.1, G kv.2)) →
+    (∀ k ∈ s.map Prod.fst, k ∉ acc.map Prod.fst) →
+    (s.map T).foldl F (some acc) = some (acc ++ s.map (fun kv => (kv.1, G kv.2))) := by
+  intro s
+  induction s with
+  | nil => intro acc _ _ _; simp
+  | cons kv r ih =>
+    intro acc hnd hT hf
+    rw [List.map_cons, List.nodup_cons] at hnd
+    rw [List.map_cons, List.foldl_cons, hF acc _ _ _ (hT kv (by simp))]
+    rw [put_fresh acc kv.1 _ (hf kv.1 (by simp))]
+    rw [ih _ hnd.2 (fun x hx => hT x (List.mem_cons_of_mem _ hx))]
+    · simp
+    · intro k hk hacc
+      rw [List.map_append, List.mem_append] at hacc
+      rcases hacc with h | h
+      · exact hf k (by simp [hk]) h
+      · simp only [List.map_cons, List.map_nil, List.mem_singleton] at h
+        exact hnd.1 (h ▸ hk)
+
+/-- parsing the parameter text after the placeholder pass: same keys in the same order, every
+    value string replaced by its placeholder form -/
+theorem paramsFromIcal_escaped (p : Params) (hd : ParamDomain p) (hp : p ≠ []) :
+    paramsFromIcal (escapeString (paramsToIcal p true)) false =
+      some ((sortByKey p).map (fun kv => (kv.1, canonVal (mapPVal escapeString kv.2)))) := by
+  have hs := paramDomain_sort p hd
+  have hne : sortByKey p ≠ [] := by
+    intro e
+    have := (sortByKey_perm p).length_eq
+    rw [e] at this
+    exact hp (List.length_eq_zero_iff.mp this.symm)
+  rw [escapeString_paramsToIcal p hd]
+  unfold paramsFromIcal
+  generalize sortByKey p = s at hs hne
+  cases s with
+  | nil => exact absurd rfl hne
+  | cons kv r =>
+    rw [qSplit_join ';' (by decide) _ (by
+        rw [List.map_cons]; exact joinWith_ne_nil _ _ _ (escItem_ne_nil kv)) (by
+        intro t ht
+        obtain ⟨x, hx, rfl⟩ := List.mem_map.mp ht
+        exact escItem_balanced x (hs.2 x hx).1.1 (hs.2 x hx).1.2 (hs.2 x hx).2)]
+    rw [fold_items' _ (by intro ps param k v h; simp only [h]) escItemText (fun v => canonVal (mapPVal escapeString v))
+      (kv :: r) [] hs.1 (fun x hx => parseParam_escItem x (hs.2 x hx).1.1 (hs.2 x hx).1.2 (hs.2 x hx).2) (by simp)]
+    simp
+
+
+end escaped
+
 end ICal
